@@ -211,3 +211,54 @@ def gen_sweep_base(seed, corpus, ref, fam):
         'clients': clients, 'gran': 'line', 'scope': ['repo'], 'cat_mode': 'shared', 'rnd_mode': 'shared', 'meta_share': True,
         'strategy': {'kind': 'focus'}, 'sched_seed': rng.randrange(1 << 30), 'faults': [], 'gcs_at': [],
     }
+
+
+def gen_s2_long(seed, corpus, ref=None):
+    """Long single-client history (120-250 ops) over one stratum, a few related strata, or the whole pool: a history of
+    n ops exercises n^2/2 ordered (earlier, later) pairs in one process, so state that one input leaves behind for
+    another is met even when nobody thought of putting the two into one family.  Events are only delivered during the
+    few ops that carry an injected fault."""
+    rng = random.Random('C20/S2L/%d' % seed)
+    st = strata(corpus, ref)
+    names = sorted(st)
+    mode = _weighted(rng, [('stratum', 5), ('kind', 3), ('pool', 2)])
+    if mode == 'stratum':
+        name = names[rng.randrange(len(names))]
+        src = list(st[name])
+        label = 'long:' + name
+    elif mode == 'kind':
+        kind = rng.choice(['parse', 'plan', 'render', 'render'])
+        cands = [n_ for n_ in names if n_.startswith(kind + '/')]
+        picked = rng.sample(cands, min(len(cands), rng.randint(2, 4)))
+        src = [op for n_ in picked for op in st[n_]]
+        label = 'long:' + '+'.join(picked)
+    else:
+        src = corpus['pool']
+        label = 'long:pool'
+    # family ops of matching kinds are mixed in, they are the inputs chosen to collide
+    fam_names = sorted(corpus['families'])
+    extra = []
+    for _ in range(3):
+        extra += corpus['families'][fam_names[rng.randrange(len(fam_names))]]
+    n = rng.randint(120, 250)
+    ops = []
+    for _ in range(n):
+        if extra and rng.random() < 0.15:
+            ops.append(extra[rng.randrange(len(extra))])
+        else:
+            ops.append(src[rng.randrange(len(src))])
+    spec = {
+        'cmd': 'sim', 'property': 'C20', 'sub': 'S2', 'seed': seed, 'hashseed': hashseed_for(seed), 'families': [label],
+        'clients': [ops], 'gran': 'line', 'scope': ['repo'], 'cat_mode': _weighted(rng, [('shared', 8), ('op', 2)]),
+        'rnd_mode': _weighted(rng, [('shared', 8), ('op', 2)]), 'meta_share': rng.random() < 0.7,
+        'strategy': {'kind': 'none'}, 'sched_seed': 0, 'faults': [], 'gcs_at': [], 'lazy_events': True, 'long': True,
+    }
+    if rng.random() < 0.6:
+        for oi in sorted(rng.sample(range(n), rng.randint(1, 5))):
+            kind = _weighted(rng, [('abort', 6), ('mem', 2), ('rec', 2)])
+            spec['faults'].append([0, oi, rng.randint(1, _ev(None, ops[oi], 'line')), kind])
+    if rng.random() < 0.3:
+        for _ in range(rng.randint(1, 3)):
+            oi = rng.randrange(n)
+            spec['gcs_at'].append([0, oi, rng.randint(1, _ev(None, ops[oi], 'line'))])
+    return spec
